@@ -156,12 +156,14 @@ class Spelling:
         # by two blanks (both chosen by the element's id, see the unwrap-block spelling below)
         q = '"' if zlib.crc32(b"qt%d" % e.id) % 6 == 0 and '"' not in self.ds + self.de else "'"
         sep = "  " if zlib.crc32(b"sp%d" % e.id) % 8 == 0 else " "
+        # one element in five writes blanks around the `=` of its condition attribute (`to ='..'`, `to = '..'`, `to= '..'`)
+        eq = {0: " =", 1: " = ", 2: "= "}.get(zlib.crc32(b"eq%d" % e.id) % 15, "=")
         if e.kind == "tl":
-            a = "to=%s%s%s" % (q, e.to or (READY_T if e.ready else PEND_T), q)
+            a = "to%s%s%s%s" % (eq, q, e.to or (READY_T if e.ready else PEND_T), q)
         elif e.kind == "rm":
-            a = "name=%s%s%s" % (q, e.name if e.name is not None else ("a" if e.ready else "b"), q)
+            a = "name%s%s%s%s" % (eq, q, e.name if e.name is not None else ("a" if e.ready else "b"), q)
         else:
-            a = "q=%s1%s" % (q, q)
+            a = "q%s%s1%s" % (eq, q, q)
         parts = [self.tagname(e.kind), a]
         if e.unwrap:
             # the attribute counts by its name: a quarter of the elements spell it with a value (chosen by the
@@ -177,7 +179,9 @@ class Spelling:
         if e.extra:
             parts.append(e.extra)
         if self.multiline:
-            k = zlib.crc32(b"ml%d" % e.id) % 4
+            k = zlib.crc32(b"ml%d" % e.id) % 5
+            if k == 4:
+                sep = "\n"          # the continuation lines start in column 0
             if k == 0:
                 sep = "\n" + (e.indent or "") + "  "
             elif k == 1:
